@@ -171,11 +171,111 @@ def stepC10 (ts : List String) : String :=
     | _, _ => "bad-op"
   | _ => "bad-op"
 
+def hexDigit? (c : Char) : Option Nat :=
+  if '0' ≤ c ∧ c ≤ '9' then some (c.toNat - '0'.toNat)
+  else if 'a' ≤ c ∧ c ≤ 'f' then some (c.toNat - 'a'.toNat + 10)
+  else if 'A' ≤ c ∧ c ≤ 'F' then some (c.toNat - 'A'.toNat + 10) else none
+
+def unhexAux : List Char → Option (List Nat)
+  | [] => some []
+  | a :: b :: rest => do
+    let x ← hexDigit? a; let y ← hexDigit? b; let r ← unhexAux rest; pure ((16 * x + y) :: r)
+  | _ => none
+
+/-- `-` is the empty byte string -/
+def unhex (s : String) : Option (List Nat) := if s == "-" then some [] else unhexAux s.toList
+
+def hexOf (bs : List Nat) : String :=
+  if bs.isEmpty then "-" else
+  let d (n : Nat) : Char := if n < 10 then Char.ofNat (48 + n) else Char.ofNat (87 + n)
+  String.ofList (bs.flatMap (fun b => [d (b / 16 % 16), d (b % 16)]))
+
+def fmtName : Sigproc.Fmt → String
+  | .I => "I" | .d => "d" | .b => "b" | .str => "str"
+
+def parseVal (f v : String) : Option Sigproc.Val :=
+  if f == "I" then v.toNat?.map .u32
+  else if f == "d" then (unhex v).map .f64
+  else if f == "b" then v.toInt?.map (fun z => .i8 ((z % 256).toNat))
+  else if f == "str" then (unhex v).map .str
+  else none
+
+def showVal : Sigproc.Val → String
+  | .u32 n => toString n
+  | .f64 bs => hexOf bs
+  | .i8 b => toString (if b ≥ 128 then (b : Int) - 256 else (b : Int))
+  | .str s => hexOf s
+
+def parseKvs : List String → Option (List (Sigproc.Bytes × Sigproc.Val))
+  | [] => some []
+  | k :: f :: v :: rest => do
+    let k ← unhex k; let v ← parseVal f v; let r ← parseKvs rest; pure ((k, v) :: r)
+  | _ => none
+
+def showKvs (kvs : List (Sigproc.Bytes × Sigproc.Val)) : String :=
+  " ".intercalate (kvs.map (fun (k, v) => s!"{hexOf k} {fmtName v.fmt} {showVal v}"))
+
+def stepC05 (ts : List String) : String :=
+  match ts with
+  | "enc" :: rest =>
+    match parseKvs rest with
+    | some kvs => s!"ok {hexOf (Sigproc.encodeHeader kvs)}"
+    | none => "bad-op"
+  | ["parse", h] =>
+    match unhex h with
+    | none => "bad-op"
+    | some bs =>
+      match Sigproc.parseHeader bs with
+      | .ok (kvs, n) => s!"ok {n} {kvs.length} {showKvs kvs}".trimAsciiEnd.toString
+      | .error e => s!"err {e.name}"
+  | ["edit", file, key, t, v] =>
+    match unhex file, unhex key with
+    | some file, some key =>
+      let ev : Option Sigproc.EditVal :=
+        if t == "i" then v.toInt?.map .int else if t == "d" then (unhex v).map .flt
+        else if t == "s" then (unhex v).map .str else none
+      match ev with
+      | none => "bad-op"
+      | some ev =>
+        match Sigproc.editHeader file key ev with
+        | .ok f => s!"ok {hexOf f}"
+        | .error e => s!"err {e.name}"
+    | _, _ => "bad-op"
+  | ["frame", f] =>
+    let fr : Option Sigproc.Frame := if f == "topocentric" then some .topocentric
+      else if f == "barycentric" then some .barycentric else if f == "pulsarcentric" then some .pulsarcentric else none
+    match fr with
+    | none => "bad-op"
+    | some fr =>
+      let (p, b) := Sigproc.flagsOf fr
+      let back := match Sigproc.frameOf p b with
+        | .topocentric => "topocentric" | .barycentric => "barycentric" | .pulsarcentric => "pulsarcentric"
+      s!"ok {p} {b} {back}"
+  | ["ids", tel, mach] =>
+    match unhex tel, unhex mach with
+    | some t, some m =>
+      let tn := String.ofList (t.map Char.ofNat)
+      let mn := String.ofList (m.map Char.ofNat)
+      let ti := Sigproc.telescopeId tn
+      let mi := Sigproc.machineId mn
+      s!"ok {ti} {mi} {hexOf (Sigproc.ascii (Sigproc.telescopeName ti))} {hexOf (Sigproc.ascii (Sigproc.machineName mi))}"
+    | _, _ => "bad-op"
+  | ["radec", neg, d, m, sn, sd] =>
+    match d.toNat?, m.toNat?, sn.toInt?, sd.toNat? with
+    | some d, some m, some sn, some sd =>
+      if sd = 0 then "bad-op" else
+      let v := Sigproc.packRadec (neg == "1") d m (mkRat sn sd)
+      let (ng, d', m', s') := Sigproc.parseRadec v
+      s!"ok {showRat v} {if ng then 1 else 0} {d'} {m'} {showRat s'}"
+    | _, _, _, _ => "bad-op"
+  | _ => "bad-op"
+
 def step (line : String) : String :=
   match (line.trimAscii.toString.splitOn " ").filter (· ≠ "") with
   | "C03" :: rest => stepC03 rest
   | "C01" :: rest => stepC01 rest
   | "C02" :: rest => stepC02 rest
+  | "C05" :: rest => stepC05 rest
   | "C10" :: rest => stepC10 rest
   | _ => "bad-op"
 
